@@ -12,6 +12,7 @@ Compio/Model/RemoteJoin.lean), for every interleaving.
 import Compio.Lemmas.ExecutorSteps
 import Compio.Lemmas.RemoteJoinTie
 import Compio.Gen.TaskOrder
+import Compio.Lemmas.QueueRefine
 
 namespace Compio.Props.C04
 open Compio.TaskWord Compio.Gen Compio.Executor
@@ -925,6 +926,90 @@ example : (run 64 [.spawn [.pending, .ready], .rhpoll 0 5, .tick 61, .tick 61]).
     (applyR (run 64 [.spawn [.wakeSelf, .ready], .rhpoll 0 5, .tick 61, .tick 61]) (.rhpoll 0 6)).2 = .join .ok ∧
     (applyR (run 64 [.spawn [.ready], .tick 61]) (.rhcancel 0)).2 = .cancel .ok ∧
     (applyR (run 64 [.spawn [.pending], .tick 61]) (.rhcancel 0)).2 = .cancel .cancelled := by decide
+
+/-! ## 6b. The queue as the code stores it: slot map + intrusive doubly linked lists (Model/QueueIntrusive.lean)
+
+`QueueIntrusive.IQ` is queue.rs as coded (`Item{prev,next,is_hot}`, `hot`/`cold` `{head,tail}`, `link_tail`,
+`unlink::<HOT|COLD>`, `make_hot`, `make_cold`, `insert`, `remove`, `next_hot`, `iter_hot`, `clear`, assignments in
+source order — pinned by `source_shape_queueLinkTailBody` / `…UnlinkBody` / `source_order_queue*`).
+`Rep c hot cold`: both lists are proper doubly linked lists over live slots, disjoint, `is_hot` agrees with
+membership, head/tail consistent, live slots = members (no dangling key); `WF c := ∃ hot cold, Rep c hot cold`;
+`abs c` walks the `next` links. -/
+
+section intrusive
+open Compio.QueueIntrusive
+
+/-- well-formedness spelled out -/
+theorem intrusive_rep_iff (c : IQ) (hot cold : List Nat) :
+    Rep c hot cold ↔
+      (hot ++ cold).Nodup ∧ (∀ k, (∃ it, c.map[k]? = some (some it)) ↔ k ∈ hot ++ cold) ∧
+      c.hotHead = hot.head? ∧ c.hotTail = hot.getLast? ∧ c.coldHead = cold.head? ∧ c.coldTail = cold.getLast? ∧
+      (∀ k ∈ hot, c.map[k]? = some (some { prev := predIn hot k, next := succIn hot k, isHot := true })) ∧
+      (∀ k ∈ cold, c.map[k]? = some (some { prev := predIn cold k, next := succIn cold k, isHot := false })) :=
+  rep_iff
+
+/-- a well-formed structure represents exactly one pair of lists, the one `abs` computes -/
+theorem intrusive_abs_of_rep (c : IQ) (hot cold : List Nat) (h : Rep c hot cold) : abs c = (hot, cold) :=
+  abs_of_rep h
+
+/-- refinement, operation by operation: on a well-formed queue no `expect` fails, well-formedness is
+preserved, and the abstraction commutes with the two-list specification the executor model uses
+(`specMakeHot` = `Executor.makeHot`, `specMakeCold` = `Executor.makeCold`, `specRemove` = `Executor.removeTask`,
+`specInsert` = the queue part of `Executor.spawn`) -/
+theorem intrusive_makeHot_refines (c : IQ) (h : WF c) (k : Nat) :
+    ∃ c', QueueIntrusive.makeHot c k = some c' ∧ WF c' ∧ abs c' = specMakeHot (abs c).1 (abs c).2 k :=
+  abs_makeHot h k
+
+/-- `make_cold` within its `debug_assert`ed precondition (the key is not cold) -/
+theorem intrusive_makeCold_refines (c : IQ) (h : WF c) (k : Nat) (hpre : k ∉ (abs c).2) :
+    ∃ c', QueueIntrusive.makeCold c k = some c' ∧ WF c' ∧ abs c' = specMakeCold (abs c).1 (abs c).2 k :=
+  abs_makeCold h k hpre
+
+theorem intrusive_insert_refines (c : IQ) (h : WF c) :
+    ∃ c', QueueIntrusive.insert c = some (c', c.map.length) ∧ WF c' ∧
+      abs c' = specInsert (abs c).1 (abs c).2 c.map.length ∧
+      c.map.length ∉ (abs c).1 ∧ c.map.length ∉ (abs c).2 := abs_insert h
+
+/-- `remove` unlinks the item from the list it IS in (hot or cold) — the obligation seeded defect C04-2a violates -/
+theorem intrusive_remove_refines (c : IQ) (h : WF c) (k : Nat) :
+    ∃ c' b, QueueIntrusive.remove c k = some (c', b) ∧ WF c' ∧ abs c' = specRemove (abs c).1 (abs c).2 k ∧
+      (b = true ↔ (k ∈ (abs c).1 ∨ k ∈ (abs c).2)) := abs_remove h k
+
+theorem intrusive_clear_refines (c : IQ) (h : WF c) : WF (QueueIntrusive.clear c) ∧ abs (QueueIntrusive.clear c) = ([], []) :=
+  abs_clear h
+
+/-- `next_hot` is the successor in the abstract hot list (what `tickLoop` prefetches), `hot_head` its head, and
+`iter_hot` on an unmodified queue yields the hot list -/
+theorem intrusive_iteration_refines (c : IQ) (hot cold : List Nat) (h : Rep c hot cold) :
+    (∀ k, k ∈ hot → QueueIntrusive.nextHot c k = Compio.Executor.nextHot hot k) ∧ c.hotHead = hot.head? ∧
+    iterCollect (c.map.length + 1) c (iterHot c) = hot :=
+  ⟨fun k hk => (nextHot_refines h hk).1, hotHead_refines h, iterHot_yields_hot h⟩
+
+/-- SlotMap generations: a removed key is in neither list, misses in `get`, and every later operation on it
+is a no-op -/
+theorem intrusive_removed_key_unreachable (c : IQ) (h : WF c) (k : Nat) :
+    ∃ c' b, QueueIntrusive.remove c k = some (c', b) ∧ WF c' ∧ k ∉ (abs c').1 ∧ k ∉ (abs c').2 ∧ c'.get k = none ∧
+      QueueIntrusive.makeHot c' k = some c' ∧ QueueIntrusive.makeCold c' k = some c' ∧
+      QueueIntrusive.nextHot c' k = none ∧ QueueIntrusive.remove c' k = some (c', false) := removed_key h k
+
+/-- every state reached from the empty queue by any sequence of insert / make_hot / make_cold (of a key that
+is not cold) / remove / clear is well-formed and its abstraction is the fold of the specification -/
+theorem intrusive_reachable_wf (ops : List QueueIntrusive.Op) (s : Spec) (hs : specRun Spec.init ops = some s) :
+    ∃ c, runOps IQ.empty ops = some c ∧ WF c ∧ abs c = (s.hot, s.cold) ∧ c.map.length = s.next :=
+  reachable_wf hs
+
+/-- TRANSFER: after EVERY program of the executor model the two lists `hot` / `cold` (about which all the
+theorems above speak) are the abstraction of a well-formed intrusive queue, whose key counter is the number of
+tasks spawned (`insert` returns the id the model gives the next task): obtained by replaying each `makeHot` /
+`makeCold` / `removeTask` / `spawn` / `clearAll` / `drainSync` of the model as the coded `make_hot` / `make_cold` /
+`remove` / `insert` / `clear` -/
+theorem queue_is_abstraction_of_intrusive (q : Nat) (ops : List Compio.Executor.Op) :
+    ∃ c : IQ, WF c ∧ abs c = ((run q ops).hot, (run q ops).cold) ∧ c.map.length = (run q ops).tasks.length ∧
+      Rep c (run q ops).hot (run q ops).cold := by
+  obtain ⟨c, r, l⟩ := qrep_run q ops
+  exact ⟨c, ⟨_, _, r⟩, abs_of_rep r, l, r⟩
+
+end intrusive
 
 /-! ## 7. The join handle on ANOTHER thread (Compio/Model/RemoteJoin.lean)
 
